@@ -517,7 +517,7 @@ theorem enc64_length (n : Nat) : (enc64 n).length = 8 := rfl
 
 /-- **transport_transparent.** When the compressed wire form fits into the `req.Size` bytes raft
 lets the receiver read, the receiver sees exactly the payload, without error. -/
-theorem transport_transparent (Z : Zstd) (hZ : Z.Lawful) (p : Bytes) (hp : p.length < 18446744073709551616)
+theorem transport_transparent (Z : Zstd) (hZ : Z.Lawful) (p : Bytes) (hp : p.length < 9223372036854775808)
     (hfit : (sendWire Z p.length p).length ≤ p.length) :
     recvWire Z p.length (sendWire Z p.length p) = ⟨p, false⟩ := by
   have ht : (sendWire Z p.length p).take p.length = sendWire Z p.length p := List.take_of_length_le hfit
@@ -525,13 +525,13 @@ theorem transport_transparent (Z : Zstd) (hZ : Z.Lawful) (p : Bytes) (hp : p.len
   have hne : sendWire Z p.length p ≠ [] := by simp [sendWire, enc64, enc32]
   have hl8 : ¬ (sendWire Z p.length p).length < 8 := by simp [sendWire, enc64_length]
   rw [if_neg hne, if_neg hl8]
-  have hn : be64 (sendWire Z p.length p) = p.length := be64_enc64_append _ _ hp
+  have hn : be64 (sendWire Z p.length p) = p.length := be64_enc64_append _ _ (by omega)
   have hd : (sendWire Z p.length p).drop 8 = Z.comp p := by
     simp only [sendWire]; exact List.drop_left' (enc64_length _)
   rw [hn, hd]
   have := hZ.roundtrip p []
   simp only [List.append_nil] at this
-  rw [this]
+  rw [this, if_neg (by omega)]
   simp
 
 end RqModel.SnapStream
